@@ -65,24 +65,19 @@ def prop_C10(run):
 def prop_C18(run):
     import rules_tab, rules_det
     rules_tab.tab_cli(run)
+    # global options are honoured where they take effect: -d (COND define rules), -o (the file server really writes)
+    import rules_cond, rules_mpt
+    rules_cond.define_rules(run)
+    rules_mpt.write_rules(run)
     # hash order of the format-parameter map must not reach a diagnostic
     pof = run.prog.find("driver::parse_output_format")
     rules_det.det1(run, fns=pof + [g for g in run.prog.real_fns() if g.raw.get("parent") == "driver::parse_output_format"], rule="DET1")
     run.rules_run += ["TAB-cli usage_help.md <-> make_opts <-> parse_command <-> parse_output_format <-> derive_output_filename", "DET1 on the format parameter map"]
 
 
-def prop_C11(run):
-    import rules_tab, rules_unit, rules_det
-    rules_tab.tab_fmt(run)
-    rules_tab.fmt_profile(run)
-    rules_tab.bit_source(run)
-    # bit positions, output byte counts and addresses in address units never meet in one value
-    nc, ns = rules_unit.unit(run, scope_files=list(rules_unit.LAYOUT_FILES), layout=True)
-    run.floor("UNIT5", "layout-unit seeds in the formatters", run.counters.get("unit_layout_seeds", 0), 20)
-    rules_det.lossy_apis(run)
-    rules_det.ceil_divisions(run)
-    rules_det.intelhex_address_width(run)
-    # the validators the dispatch relies on must be the ones the driver really applies
+def validators_agree(run):
+    """the validators the dispatch relies on must be the ones the driver really applies"""
+    import rules_tab
     pof = run.anchor("TAB-fmt", "driver::parse_output_format")
     if pof:
         table = rules_tab.format_table(run, pof)
@@ -94,6 +89,23 @@ def prop_C11(run):
                     run.check(want == list(fv[3]), "TAB-fmt", "TAB-fmt|validator|%s.%s" % (name, fv[1]), "%s:%d" % (pof.file, line),
                               "`%s,%s:` validated by %s" % (name, fv[1], list(fv[3])),
                               "`%s,%s:` validator is %s, the formatters were audited against %s" % (name, fv[1], list(fv[3]), want))
+
+
+def prop_C11(run):
+    import rules_tab, rules_unit, rules_det
+    rules_tab.tab_fmt(run)
+    rules_tab.fmt_profile(run)
+    rules_tab.bit_source(run)
+    import rules_mpt
+    rules_mpt.get_blocks_rules(run)
+    rules_tab.tab_cli_groups(run)               # what is formatted is what gets written, for every group that names a file
+    # bit positions, output byte counts and addresses in address units never meet in one value
+    nc, ns = rules_unit.unit(run, scope_files=list(rules_unit.LAYOUT_FILES), layout=True)
+    run.floor("UNIT5", "layout-unit seeds in the formatters", run.counters.get("unit_layout_seeds", 0), 20)
+    rules_det.lossy_apis(run)
+    rules_det.ceil_divisions(run)
+    rules_det.intelhex_address_width(run)
+    validators_agree(run)
     run.rules_run += ["TAB-fmt OutputFormat variant -> formatter(constants), wrappers, panic-guarded parameter domains, divisors nonzero"]
 
 
@@ -119,6 +131,10 @@ def prop_C03(run):
     rules_asm.args_rules(run)
     rules_mpt.write_rules(run)
     rules_mpt.no_failure_after_write(run)
+    import rules_tab, rules_unit
+    rules_tab.tab_fmt(run)                      # panic-guarded parameter domains of the formatters (divisors nonzero) ...
+    validators_agree(run)                       # ... against the validators the driver really applies
+    rules_unit.line_column_counts(run)          # locating a diagnostic walks characters (no slicing at an arbitrary byte index)
     np_ = rules_err.pair(run, reach)
     run.floor("PAIR", "functions pushing parents", np_, 12)
     run.rules_run += ["ERR1 Err => message pushed (interprocedural path-state search)", "ERR3 Unresolved/None in a last pass => message pushed",
@@ -137,6 +153,7 @@ def prop_C02(run):
     rules_idx.static_known(run)
     rules_idx.sk_provider(run)
     rules_idx.sk_match_locals(run)
+    rules_idx.sk_instruction_flag(run)
     run.rules_run += ["FIX5 every candidate re-evaluated in every pass", "SK static-known analysis conservative (a frozen item must really be constant)", "FIX1 confirming no-guess pass dominates every delivered result", "FIX2 each stateful resolver compares with the previous pass and returns Unresolved on change",
                       "FIX3 resolved=true only under the static-known conjunction", "ERR3 unstable value in a last pass is an error"]
 
@@ -145,6 +162,9 @@ def prop_C09(run):
     import rules_fix, rules_tab
     rules_fix.fix1(run)
     rules_fix.fix2(run)
+    import rules_idx
+    rules_idx.sk_instruction_flag(run)
+    rules_fix.fix3(run)
     rules_fix.fix4(run)
     pc = run.anchor("FIX4", "driver::parse_command")
     if pc:
@@ -162,6 +182,7 @@ def prop_C08(run):
     rules_idx.static_known(run)
     rules_idx.sk_provider(run)
     rules_idx.sk_match_locals(run)
+    rules_idx.sk_instruction_flag(run)
     run.rules_run += ["GATE who-touches audit of the two optimisation switches", "FIX3", "TAB-idx writer/reader/matcher agreement of the rule-prefix index", "SK conservativeness of is_value_statically_known per Expr variant"]
 
 
@@ -172,6 +193,7 @@ def prop_C07(run):
     rules_idx.match_identity(run)
     rules_idx.lookahead_both(run)
     rules_idx.candidates_all_matched(run)
+    rules_idx.exact_count_definition(run)
     run.rules_run += ["TAB-idx (case normalisation, token classes, whitespace skipping)", "MATCH shape of match_with_rule / match_instr selection"]
 
 
@@ -182,7 +204,9 @@ def prop_C13(run):
     rules_unit.unit2(run)
     rules_unit.unit3(run)
     rules_unit.span_shape(run)
+    rules_unit.field_span_rule(run)
     rules_unit.src_bind(run)
+    rules_unit.expr_node_spans(run)
     rules_unit.line_column_counts(run)
     rules_unit.walker_text(run)
     import rules_sym
@@ -245,6 +269,7 @@ def prop_C05(run):
     rules_op.tab_builtins(run)
     rules_op.literal_rules(run)
     rules_op.concat_rule(run)
+    rules_op.propagate_rule(run)
     rules_lim.lim4(run)
     run.rules_run += ["TAB-op tokens <-> precedence levels <-> evaluator primitives <-> num-bigint operations, literal radix tables", "LIM4 checked primitives (caps, zero tests)"]
 
@@ -283,10 +308,13 @@ def prop_C12(run):
     rules_mpt.build_output_rules(run)
     rules_unit.unit(run, layout=True)
     rules_unit.src_bind(run)
+    rules_unit.expr_node_spans(run)
     rules_unit.addrspan_positions(run)
+    rules_unit.line_column_counts(run)
     n = lim2_obligations(run, only=lambda key, f: "symbol_format" in key or "format_addrspan" in key)
     rules_mpt.symbol_listing(run)
     rules_mpt.mesen_header_rule(run)
+    rules_mpt.symbol_bank_rule(run)
     # the symbol listings take the children of a scope from a hash map: listed in declaration order only through the sort
     import rules_det
     rules_det.det1(run, fns=[f for f in run.prog.real_fns() if (f.raw.get("root") or f.id).startswith("util::symbol_format::")])
@@ -301,6 +329,9 @@ def prop_C01(run):
     rules_idx.match_shape(run)
     rules_idx.match_identity(run)
     rules_idx.lookahead_both(run)
+    rules_idx.tab_idx(run)
+    import rules_asm
+    rules_asm.argument_context_rules(run)
     rules_mpt.alignment_rules(run)
     rules_mpt.overlap_rules(run)
     import rules_sym
@@ -343,6 +374,10 @@ def prop_C16(run):
     rules_cond.resolve_ifs_rules(run)
     rules_cond.leftover_rules(run)
     rules_cond.define_rules(run)
+    import rules_op
+    rules_op.propagate_rule(run)               # a condition over constants that are not known yet is `unknown`, not an error
+    import rules_rng
+    rules_rng.size_writers(run)                # a define's value keeps the width its text has in the source language
     rules_cond.arm_reader_rules(run)
     rules_cond.prepass_loop_rules(run)
     rules_cond.nested_include_rule(run)
@@ -375,6 +410,8 @@ def prop_C17(run):
     rules_asm.asm_block_rules(run)
     rules_asm.substitution_rules(run)
     rules_asm.nested_arg_text(run)
+    rules_asm.argument_context_rules(run)
+    rules_asm.new_deepened_rule(run)
     rules_asm.fn_rules(run)
     rules_asm.args_rules(run)
     rules_idx.static_known(run)
